@@ -36,7 +36,9 @@ HOLDERS = {
 
 def describe(tier):
     return dict(
-        rule="history system: holder types {struct with Ref, struct with UnionRef, static array of Ref, dynamic array of UnionRef, Ref to a dynamic array, "
+        rule="(second system, shards 'declared-default') reference and union-reference fields DECLARED with a default (default= list / (name, data), default_factory= object / tuple): "
+        "from {field omitted, explicit nulls, values, one null} BFS over {set null, set value, copy same buffer / other buffer / other context, embed by value, array item, embed from a dictionary of nulls}: "
+        "a null stays a null wherever it travels, an omitted field gets the default. (first system) history system: holder types {struct with Ref, struct with UnionRef, static array of Ref, dynamic array of UnionRef, Ref to a dynamic array, "
         "struct nesting a ref-holding struct, union with an array member, stand-alone UnionRef}; world = holder buffer (small, traced, grow_step 8) with "
         "two P and one Q/array object, one foreign buffer; events = the property's list {construct another holder, bind-to-existing, bind-to-value, "
         "bind-to-foreign-object, bind-to-null, write-through-ref, write-through-original, allocate-until-growth}; heap-graph model; every transition "
@@ -55,6 +57,7 @@ def shards(tier, seed):
     for hname in sorted(HOLDERS):
         n1 = len(events(build(hname, [], 0)))
         out += [(hname, i) for i in range(n1)]
+    out += [("declared-default", "default"), ("declared-default", "factory")]
     return out[seed % len(out):] + out[: seed % len(out)]
 
 
@@ -410,6 +413,9 @@ def step_and_check(w, ev, n, res):
 def run_shard(shard, tier, seed):
     hname, first = shard
     res = common.ShardResult()
+    if hname == "declared-default":
+        run_defaults(first, tier, res)
+        return res
     depth = 4 if tier == "quick" else 5
     if len(HOLDERS[hname][1]) > 1:
         depth -= 1
@@ -458,6 +464,12 @@ def run_shard(shard, tier, seed):
 
 
 def replay(case):
+    if case.get("part") == "defaults":
+        try:
+            r = d_check(d_build(case["variant"], case["init"], case["history"]))
+        except Exception as e:
+            r = ("C08.accepts", "event-raises:" + common.exc_failure(e), repr(e))
+        return [r] if r else []
     hname = case["holder"]
     hist = []
     for i in case["hist_idx"]:
@@ -470,3 +482,144 @@ def replay(case):
     ev = events(wb)[case["ev_idx"]]
     w = build(hname, hist, 0)
     return step_and_check(w, ev, len(hist), res)
+
+
+# --------------------------------------------------------------------------
+# reference fields DECLARED WITH A DEFAULT: a null is a value of its own, not "no value given"
+
+
+def defaults_classes(variant):
+    import xobjects as xo
+
+    key = ("dflt", variant)
+    if key not in _dcls:
+        Pd = type("C08Pd", (xo.Struct,), {"a": xo.Int64, "b": xo.Float64})
+        DAd = xo.Float64[:]
+        Ud = type("C08Ud", (xo.UnionRef,), {"_reftypes": [Pd, DAd]})
+        if variant == "default":  # reference to an array with a list as default; union with a (name, data) default
+            fr = xo.Field(xo.Ref[DAd], default=[7.0, 1.5])
+            fu = xo.Field(Ud, default=("C08Pd", {"a": 9, "b": 3.5}))
+        else:  # reference to a struct with a factory making an object; union with a factory
+            fr = xo.Field(xo.Ref[Pd], default_factory=lambda: Pd(a=7, b=1.5))
+            fu = xo.Field(Ud, default_factory=lambda: ("C08Pd", {"a": 9, "b": 3.5}))
+        Hd = type("C08Hd_" + variant, (xo.Struct,), {"r": fr, "u": fu, "k": xo.Int64})
+        Od = type("C08Od_" + variant, (xo.Struct,), {"h": Hd, "z": xo.Int64})
+        _dcls[key] = (Pd, Ud, Hd, Od)
+    return _dcls[key]
+
+
+_dcls = {}
+D_DEFAULT = {"r": {"a": 7, "b": 1.5}, "u": {"a": 9, "b": 3.5}}
+D_INIT = ["omitted", "nulls", "values", "r-null", "u-null"]
+D_EVENTS = ["set-r-none", "set-u-none", "set-r-value", "set-u-value", "copy-same", "copy-other", "copy-ctx", "embed", "array-item", "embed-dict-none"]
+
+
+def d_arg(variant, m):
+    """the value for field r: a list for the array reference of variant 'default', a dictionary for the struct reference"""
+    return [float(m["a"]), m["b"]] if variant == "default" else dict(m)
+
+
+def d_build(variant, init, hist):
+    """objects = [(handle, model)], the last one is the current object"""
+    import xobjects as xo
+
+    Pd, Ud, Hd, Od = defaults_classes(variant)
+    B = place.traced("np", 0)
+    kw = dict(k=5, _buffer=B)
+    m = {"r": dict(D_DEFAULT["r"]), "u": dict(D_DEFAULT["u"])}
+    if init in ("nulls", "r-null"):
+        kw["r"] = None
+        m["r"] = None
+    if init in ("nulls", "u-null"):
+        kw["u"] = None
+        m["u"] = None
+    if init == "values":
+        kw["r"] = d_arg(variant, {"a": 1, "b": 0.5})
+        kw["u"] = ("C08Pd", {"a": 2, "b": 0.25})
+        m = {"r": {"a": 1, "b": 0.5}, "u": {"a": 2, "b": 0.25}}
+    objs = [(Hd(**kw), m)]
+    for n, ev in enumerate(hist):
+        h, m = objs[-1]
+        m = {k: (dict(v) if v else None) for k, v in m.items()}
+        if ev == "set-r-none":
+            h.r = None
+            objs[-1][1]["r"] = None
+        elif ev == "set-u-none":
+            h.u = None
+            objs[-1][1]["u"] = None
+        elif ev == "set-r-value":
+            h.r = d_arg(variant, {"a": 20 + n, "b": 4.5})
+            objs[-1][1]["r"] = {"a": 20 + n, "b": 4.5}
+        elif ev == "set-u-value":
+            h.u = ("C08Pd", {"a": 30 + n, "b": 5.5})
+            objs[-1][1]["u"] = {"a": 30 + n, "b": 5.5}
+        elif ev == "copy-same":
+            objs.append((Hd(h, _buffer=B), m))
+        elif ev == "copy-other":
+            objs.append((Hd(h, _buffer=place.traced("np", 0)), m))
+        elif ev == "copy-ctx":
+            objs.append((Hd(h, _context=place.ctx(1)), m))
+        elif ev == "embed":
+            objs.append((Od(h=h, z=1, _buffer=B).h, m))
+        elif ev == "embed-dict-none":
+            o = Od(h={"r": None, "u": None, "k": 3}, z=1, _buffer=B)
+            objs.append((o.h, {"r": None, "u": None}))
+        elif ev == "array-item":
+            arr = Hd[2]([h, h], _buffer=B)
+            objs.append((arr[1], m))
+        else:
+            raise ValueError(ev)
+    return objs
+
+
+def d_check(objs):
+    for i, (h, m) in enumerate(objs):
+        for f in ("r", "u"):
+            got = getattr(h, f)
+            if m[f] is None:
+                if got is not None:
+                    return ("C08.null", "null-reference-resolves", "object %d: field %s must be null, reads %r" % (i, f, got))
+            else:
+                if got is None:
+                    return ("C08.alias", "bound-reference-is-null", "object %d: field %s is null, model %r" % (i, f, m[f]))
+                val = (int(got.a), float(got.b)) if hasattr(got, "a") else (int(got[0]), float(got[1]))
+                if val != (m[f]["a"], m[f]["b"]):
+                    return ("C08.alias", "referent-value", "object %d: field %s reads %r, model %r" % (i, f, val, m[f]))
+    return None
+
+
+def run_defaults(variant, tier, res):
+    depth = 2 if tier == "quick" else 3
+    sig = set()
+    for init in D_INIT:
+        frontier, seen = [[]], set()
+        for d in range(depth + 1):
+            nf = []
+            for hist in frontier:
+                res.transitions += 1
+                res.events["default-" + (hist[-1] if hist else "construct")] += 1
+                feat = dict(holder="declared-default:" + variant, init=init, event=hist[-1] if hist else "construct", depth=len(hist))
+                case = dict(part="defaults", variant=variant, init=init, history=list(hist))
+                try:
+                    objs = d_build(variant, init, hist)
+                    r = d_check(objs)
+                except Exception as e:
+                    r = ("C08.accepts", "event-raises:" + common.exc_failure(e), repr(e))
+                if r:
+                    res.outcomes["bad:" + r[1].split(":")[0]] += 1
+                    if (r[0], r[1], feat["event"]) not in sig:
+                        sig.add((r[0], r[1], feat["event"]))
+                        res.violations.append(common.violation(r[0], r[1], feat, case, r[2]))
+                    continue
+                res.outcomes["ok:declared-default"] += 1
+                k = repr([m for _, m in objs])
+                if k in seen:
+                    continue
+                seen.add(k)
+                res.states += 1
+                if d < depth:
+                    nf += [hist + [ev] for ev in D_EVENTS]
+            frontier = nf
+    res.cases += len(D_INIT)
+    res.nontrivial = res.states
+    res.max_depth = max(res.max_depth, depth)
